@@ -13,12 +13,17 @@ import (
 // atomic and durable when it returns (bbolt's own crash safety is trusted).
 type Store struct {
 	Raw    []byte // JSON of PersistentState, nil = never committed
-	Stable map[string][]byte
+	Stable []kv   // association list, not a map (see simdisk.dirMap)
 	// Commits counts CommitState calls applied.
 	Commits int
 }
 
-func New() *Store { return &Store{Stable: map[string][]byte{}} }
+func New() *Store { return &Store{} }
+
+type kv struct {
+	k string
+	v []byte
+}
 
 func (s *Store) Load() (types.PersistentState, error) {
 	var st types.PersistentState
@@ -36,23 +41,39 @@ func (s *Store) Commit(st types.PersistentState) error {
 	if err != nil {
 		return err
 	}
-	s.Raw = raw
+	// private copy: the bytes json.Marshal wrote are known to the race
+	// detector as written by the committing goroutine; oracles read Raw from
+	// other tasks
+	s.Raw = append(make([]byte, 0, len(raw)), raw...)
 	s.Commits++
 	return nil
 }
 
 func (s *Store) Get(key []byte) []byte {
-	v, ok := s.Stable[string(key)]
-	if !ok {
-		return nil
+	for _, e := range s.Stable {
+		if e.k == string(key) {
+			return append([]byte{}, e.v...)
+		}
 	}
-	return append([]byte{}, v...)
+	return nil
 }
 
 func (s *Store) Set(key, val []byte) {
-	if val == nil {
-		delete(s.Stable, string(key))
-		return
+	for i, e := range s.Stable {
+		if e.k == string(key) {
+			if val == nil {
+				for j := i; j+1 < len(s.Stable); j++ {
+					s.Stable[j] = s.Stable[j+1]
+				}
+				s.Stable[len(s.Stable)-1] = kv{}
+				s.Stable = s.Stable[:len(s.Stable)-1]
+			} else {
+				s.Stable[i].v = append([]byte{}, val...)
+			}
+			return
+		}
 	}
-	s.Stable[string(key)] = append([]byte{}, val...)
+	if val != nil {
+		s.Stable = append(s.Stable, kv{string(key), append([]byte{}, val...)})
+	}
 }
